@@ -166,6 +166,9 @@ func c14Scenarios() []*c14Scenario {
 	}
 }
 
+// c14CurrentIndexes are the shared indexes of the execution being run (for the state hash).
+var c14CurrentIndexes []*s2.ShapeIndex
+
 // buildSched turns a c14 scenario (restricted to the first nThreads ops) into an E1 scenario.
 func (s *c14Scenario) buildSched(nThreads int) (*sched.Scenario, []string) {
 	ops := s.Ops
@@ -189,6 +192,7 @@ func (s *c14Scenario) buildSched(nThreads int) (*sched.Scenario, []string) {
 	sc := &sched.Scenario{Name: s.Name}
 	sc.Make = func() ([]func(), func(r *vsched.Result) []sched.Finding) {
 		sh := s.Mk()
+		c14CurrentIndexes = s.Index(sh)
 		answers := make([]string, len(ops))
 		h := &c14Harness{reached: make([]bool, len(ops)), wrote: make([]bool, len(ops))}
 		c14H = h
@@ -228,6 +232,7 @@ type c14WorkerOut struct {
 	Points     int64            `json:"points"`
 	MaxPoints  int              `json:"max_points"`
 	Truncated  bool             `json:"truncated"`
+	States     int64            `json:"states"`
 	Outcomes   map[string]int64 `json:"outcomes"`
 	Builders   map[string]int64 `json:"builders"`
 	Reached    []int64          `json:"reached"`
@@ -242,6 +247,39 @@ type c14Failure struct {
 	Count   int      `json:"count"`
 	Stable  bool     `json:"stable"`
 	Trace   []string `json:"trace,omitempty"`
+}
+
+// c14InstallStateFns installs the shared-state hashes used by state-caching exploration.
+func c14InstallStateFns() {
+	// state-caching exploration: the shared state of these scenarios is the build progress of the
+	// scenario's indexes (the builder is deterministic, cells are only ever appended during the one
+	// build), read through a hook without synchronisation
+	vsched.StateFn = func() uint64 {
+		h := uint64(1469598103934665603)
+		for _, ix := range c14CurrentIndexes {
+			st, pend, nc, nm := ix.VerifProgress()
+			for _, v := range []uint64{uint64(uint32(st)), uint64(uint32(pend)), uint64(nc), uint64(nm)} {
+				h = (h ^ v) * 1099511628211
+			}
+		}
+		return h
+	}
+	// what a read of one hooked location of one index can observe
+	vsched.LocStateFn = func(obj any, loc int) uint64 {
+		ix, ok := obj.(*s2.ShapeIndex)
+		if !ok || ix == nil {
+			return vsched.StateFn()
+		}
+		_, pend, nc, nm := ix.VerifProgress()
+		switch loc {
+		case 0: // cells / cellMap
+			return uint64(nc)<<32 | uint64(nm)
+		case 1: // shapes: never written while queries run (Add is not a query)
+			return 0
+		default: // pendingAdditionsPos
+			return uint64(uint32(pend))
+		}
+	}
 }
 
 // c14Worker: vcheck worker c14 <scenario> <threads> <bound> <shard> <shards> <maxexec>
@@ -268,9 +306,12 @@ func c14Worker(args []string) int {
 		return 2
 	}
 	sc, expected := s.buildSched(threads)
+	if bound < 0 {
+		c14InstallStateFns()
+	}
 	out := &c14WorkerOut{Scenario: name, Threads: threads, Bound: bound, Shard: shard, Builders: map[string]int64{}, Reached: make([]int64, threads), Expected: expected}
 	fails := map[string]*c14Failure{}
-	ex := &sched.Explorer{Sc: sc, Bound: bound, Shard: shard, Shards: shards, MaxExec: maxExec}
+	ex := &sched.Explorer{Sc: sc, Bound: bound, Shard: shard, Shards: shards, MaxExec: maxExec, Unbounded: bound < 0}
 	ex.Outcome = func(r *vsched.Result) string {
 		h := c14H
 		b := "none"
@@ -325,6 +366,8 @@ func c14Worker(args []string) int {
 	out.Points = ex.Stats.Points
 	out.MaxPoints = ex.Stats.MaxPoints
 	out.Truncated = ex.Stats.Truncated
+	out.States = ex.Stats.StatesSeen
+	out.States = ex.Stats.StatesSeen
 	out.Outcomes = ex.Stats.Outcomes
 	for _, f := range fails {
 		out.Failures = append(out.Failures, *f)
@@ -353,15 +396,28 @@ func runC14(c *core.Ctx) {
 	}
 	var jobs []job
 	for _, s := range scs {
+		if only := os.Getenv("C14_SCENARIO"); only != "" && !strings.HasPrefix(s.Name, only) {
+			continue
+		}
 		maxB3 := core.Pick(c, 2, 3)
 		maxB2 := core.Pick(c, 2, 5)
 		heavy := strings.HasPrefix(s.Name, "S3b") || strings.HasPrefix(s.Name, "S4") || strings.HasPrefix(s.Name, "S2")
 		if heavy && c.Quick() {
 			maxB3 = 1
 		}
-		jobs = append(jobs, job{s, 2, maxB2, core.Pick(c, 1, 4)})
-		if len(s.Ops) >= 3 {
-			jobs = append(jobs, job{s, 3, maxB3, core.Pick(c, 4, 16)})
+		if os.Getenv("C14_UNBOUNDED_ONLY") == "" {
+			jobs = append(jobs, job{s, 2, maxB2, core.Pick(c, 1, 4)})
+			if len(s.Ops) >= 3 {
+				jobs = append(jobs, job{s, 3, maxB3, core.Pick(c, 4, 16)})
+			}
+		}
+		// all interleavings, with state caching (bound -1): two threads always, three threads in the
+		// thorough tier
+		// two threads: in both tiers; three threads: thorough tier, with a cap on executions for the
+		// scenarios whose state space is too large (reported as truncated, i.e. not exhaustive)
+		jobs = append(jobs, job{s, 2, -1, 1})
+		if len(s.Ops) >= 3 && (!c.Quick() || os.Getenv("C14_UNBOUNDED_ONLY") != "") && os.Getenv("C14_TWO_ONLY") == "" {
+			jobs = append(jobs, job{s, 3, -1, 1})
 		}
 	}
 	type res struct {
@@ -381,7 +437,11 @@ func runC14(c *core.Ctx) {
 				defer wg.Done()
 				sem <- struct{}{}
 				defer func() { <-sem }()
-				so, se, err := runWorkerProc("c14", j.sc.Name, strconv.Itoa(j.threads), strconv.Itoa(j.bound), strconv.Itoa(sh), strconv.Itoa(j.shards), "0")
+				maxExec := "0"
+				if j.bound < 0 {
+					maxExec = strconv.Itoa(core.Pick(c, 60000, 400000))
+				}
+				so, se, err := runWorkerProc("c14", j.sc.Name, strconv.Itoa(j.threads), strconv.Itoa(j.bound), strconv.Itoa(sh), strconv.Itoa(j.shards), maxExec)
 				var out *c14WorkerOut
 				scan := bufio.NewScanner(strings.NewReader(so))
 				scan.Buffer(make([]byte, 1<<20), 1<<28)
@@ -407,7 +467,7 @@ func runC14(c *core.Ctx) {
 		if r.err != "" {
 			panic(core.HarnessError(r.err))
 		}
-		var ex, pts int64
+		var ex, pts, states int64
 		outcomes := map[string]int64{}
 		builders := map[string]int64{}
 		reached := make([]int64, r.j.threads)
@@ -415,6 +475,7 @@ func runC14(c *core.Ctx) {
 		for _, o := range r.outs {
 			ex += o.Executions
 			pts += o.Points
+			states += o.States
 			if o.MaxPoints > maxPts {
 				maxPts = o.MaxPoints
 			}
@@ -426,6 +487,9 @@ func runC14(c *core.Ctx) {
 			}
 			for i, v := range o.Reached {
 				reached[i] += v
+			}
+			if o.Truncated {
+				c.CapHit(fmt.Sprintf("%s, %d threads, unbounded exploration truncated after %d executions", r.j.sc.Name, r.j.threads, o.Executions))
 			}
 			for _, f := range o.Failures {
 				sub := fmt.Sprintf("%s/threads=%d", r.j.sc.Name, r.j.threads)
@@ -448,13 +512,18 @@ func runC14(c *core.Ctx) {
 				panic(core.HarnessError(fmt.Sprintf("scenario %s is vacuous: thread %d never reached the shared index", r.j.sc.Name, i)))
 			}
 		}
-		if !r.j.sc.Prebuilt && len(builders) < 2 && r.j.bound > 0 {
+		if !r.j.sc.Prebuilt && len(builders) < 2 && r.j.bound != 0 {
 			panic(core.HarnessError(fmt.Sprintf("scenario %s is vacuous: only one builder ever (%v)", r.j.sc.Name, builders)))
 		}
 		c.Eval(int(ex))
 		c.Nontrivial(int(nontriv))
 		c.MC(int64(len(outcomes)), pts, ex)
-		table = append(table, map[string]any{"scenario": r.j.sc.Name, "threads": r.j.threads, "preemption_bound_completed": r.j.bound,
+		boundDesc := any(r.j.bound)
+		if r.j.bound < 0 {
+			boundDesc = "unbounded (all interleavings, state caching)"
+			c.MC(states, 0, 0)
+		}
+		table = append(table, map[string]any{"scenario": r.j.sc.Name, "threads": r.j.threads, "preemption_bound_completed": boundDesc, "distinct_state_choice_pairs": states,
 			"executions": ex, "scheduling_points": pts, "max_points_per_execution": maxPts, "distinct_outcomes": len(outcomes), "builders": builders, "threads_reaching_index": reached})
 		if len(table) <= 3 {
 			c.Sample(map[string]any{"scenario": r.j.sc.Name, "threads": r.j.threads, "ops": opNames(r.j.sc, r.j.threads), "serial_answers": r.outs[0].Expected, "outcome_classes": outcomes})
